@@ -3,7 +3,7 @@
    (lexer -> token stream -> parser -> transforms), proofs in proofs/StmtExamples.v. *)
 From Coq Require Import List NArith Bool Arith.
 Import ListNotations.
-From PV Require Import Regex Base LexTables NodeModel ParserBase ParserDecl ParserMain Api StmtExamples AstSpec StmtProofs ElseProofs.
+From PV Require Import Regex Base LexTables NodeModel ParserBase ParserDecl ParserMain Api StmtExamples AstSpec StmtProofs ElseProofs StmtShape.
 
 (* the else belongs to the nearest unmatched if (C99 6.8.4.1p3) *)
 Theorem C05_dangling_else :
@@ -66,3 +66,22 @@ Theorem C05_else_binds_to_nearest_if : forall (P: Type) f s r s' t s0,
     end.
 Proof. exact else_binds_to_nearest_if. Qed.
 Print Assumptions C05_else_binds_to_nearest_if.
+
+(* loop bodies are the single following statement: whatever while / do / for returns has as its body exactly one
+   value returned by a run of the statement production (stmt_here), for every token stream, state and fuel *)
+Theorem C05_loop_body_is_one_statement : forall (P: Type) f,
+  post P (fun r => exists st c, stmt_here P f st /\
+          ((exists cond, r = mkN P C_While [cond; st] c) \/ (exists cond, r = mkN P C_DoWhile [cond; st] c) \/
+           (exists init cond nx, r = mkN P C_For [init; cond; nx; st] c)))
+       (p_iteration_statement P (S f)).
+Proof. exact loop_body_is_one_statement. Qed.
+Print Assumptions C05_loop_body_is_one_statement.
+
+(* a label, `case e:` or `default:` attaches to the ONE statement that follows (an EmptyStatement when none can start there) *)
+Theorem C05_label_attaches_to_next_statement : forall (P: Type) f,
+  post P (fun r => exists st c, label_body P f st /\
+          ((exists name, r = mkN P C_Label [VStr name; st] c) \/ (exists e, r = mkN P C_Case [e; VList [st]] c) \/
+           r = mkN P C_Default [VList [st]] c))
+       (p_labeled_statement P (S f)).
+Proof. exact label_attaches_to_next_statement. Qed.
+Print Assumptions C05_label_attaches_to_next_statement.
